@@ -662,7 +662,6 @@ def run(rep, tier, seed):
     thorough = tier == "thorough"
     armi_ready()
     tlc.sany("ThermalExpansion_mc", MODDIR)
-    tlc.sany("ThermalExpansion_trace", MODDIR)
     rep.exhaustive = True
     rng = random.Random(seed)
 
@@ -717,7 +716,7 @@ def run(rep, tier, seed):
     mats4, _ = (mats, None) if nt == 4 else inventory(None, 4)
     tb = bindings(mats4, shaperoles, thorough, 4, rng if thorough else None)
     if not thorough:
-        tb = tb[:: max(1, len(tb) // (60 if _SELFTEST else 120))]
+        tb = tb[::3] if _SELFTEST else tb[::2]
     else:
         tb = tb[::3]
     traces = check_traces(rep, tb, 30 if thorough else 14, seed, "random-call-histories")
@@ -911,8 +910,7 @@ def selftest():
 
     def copy_shares_params(self):
         new = orig_copy(self)
-        new.p.numberDensities = self.p.numberDensities      # the duplicate's densities alias the source's dict
-        new.material = self.material
+        new.p = self.p          # the duplicate is not independent: it shares the parameter collection of its source
         return new
 
     orig_copy = C.__copy__
@@ -925,7 +923,7 @@ def selftest():
         ("seed 2: setTemperature(0.0) silently ignored", lambda: P(C, "setTemperature", set_temperature_ignores_zero)),
         ("seed 4: no density change for steps below 0.1 degC", lambda: P(M, "getThermalExpansionDensityReduction", reduction_deadband)),
         ("seed 5: __copy__ is a plain deepcopy (links frozen)", lambda: P(C, "__copy__", copy_plain_deepcopy)),
-        ("__copy__ shares material and density dict with its source", lambda: P(C, "__copy__", copy_shares_params)),
+        ("__copy__ shares the parameter collection with its source", lambda: P(C, "__copy__", copy_shares_params)),
         ("setTemperature reduces from Tinput instead of the previous T", lambda: P(C, "setTemperature", set_temperature_from_input)),
         ("UZr only: density reduction with exponent 3", lambda: P(UZr, "getThermalExpansionDensityReduction", reduction_cubed)),
         ("UnshapedComponent area grows linearly", lambda: P(comps.UnshapedComponent, "getComponentArea", unshaped_area_linear)),
@@ -975,13 +973,13 @@ def trace_validator_selftest():
         b["id"] += "-T"
         b["ev"][2]["post"]["T"][0] = b["ev"][2]["post"]["T"][0] % 4 + 1
         variants += [a, b]
-        prev = t["const"]["T0"]
+        prev = list(t["const"]["T0"]) + [1]
         for k, e in enumerate(t["ev"][:-1]):
             nxt = t["ev"][k + 1]["a"]
             # (a dropped setTemperature that is immediately overwritten on the same component is, by path independence,
             #  again a behaviour of the specification -- not a corruption)
             if e["a"]["n"] == "SetTemperature" and e["post"]["T"] != prev and not (
-                    nxt["n"] == "SetTemperature" and nxt["c"] == e["a"]["c"]):
+                    nxt["n"] in ("SetTemperature", "Ramp") and nxt["c"] == e["a"]["c"]):
                 c = copy.deepcopy(t)
                 c["id"] += "-drop"
                 del c["ev"][k]
